@@ -3,3 +3,7 @@ open Biogo.Properties.C10
 #print axioms facts_tie
 #print axioms foreach_spec
 #print axioms validWindows_spec
+#print axioms new_ok
+#print axioms freq_spec
+#print axioms positions_spec
+#print axioms absent_spec
